@@ -129,12 +129,17 @@ pub struct MetaKeyspace { pub dummy: u8 }
 impl MetaKeyspace {
     // ASSUMED contract of MetaKeyspace::remove_keyspace (src/meta_keyspace.rs, not under contract: lsm-tree ingestion
     // and byte-level key construction): the name leaves the dictionary and its meta rows get tombstones
+    // (contract of the real function: U-METAKS) the name leaves the dictionary and its meta rows get tombstones -- if the
+    // keyspace registered under the name is the one with the given id; otherwise nothing changes
     #[verifier::external_body]
-    pub fn remove_keyspace(&self, name: &KeyspaceKey, Tracked(w): Tracked<&mut World>) -> (r: Result<(), Error>)
-        ensures r is Ok ==> *final(w) == (World { names: old(w).names.remove(name.s@), meta_removed: old(w).meta_removed.push(name.s@), ..*old(w) }),
+    pub fn remove_keyspace(&self, name: &KeyspaceKey, id: InternalKeyspaceId, Tracked(w): Tracked<&mut World>) -> (r: Result<(), Error>)
+        ensures r is Ok && is_registered(*old(w), name.s@, id) ==> *final(w) == (World { names: old(w).names.remove(name.s@), meta_removed: old(w).meta_removed.push(name.s@), ..*old(w) }),
+                r is Ok && !is_registered(*old(w), name.s@, id) ==> *final(w) == *old(w),
                 r is Err ==> *final(w) == *old(w),
     { unimplemented!() }
 }
+/// the keyspace with this id is the one the dictionary holds under this name
+pub open spec fn is_registered(w: World, name: Seq<u8>, id: u64) -> bool { w.registered.dom().contains(name) && w.registered[name].id == id }
 
 // ---- recover_keyspaces (src/recovery.rs): directory scan shims and ghost state
 pub struct DirEntry { pub id: Ghost<u64>, pub is_file: Ghost<bool>, pub path: Ghost<int> }   // a directory entry named <id>
@@ -359,8 +364,12 @@ impl std::ops::Deref for Keyspace { type Target = KeyspaceInner; fn deref(&self)
 //@extract src/db.rs :: Database :: delete_keyspace world props=C12
 //@contract
     ensures
-        r is Ok ==> !final(w).names.contains(handle.0.t.name.s@) // [C12:name-no-longer-exists]
-            && final(w).deleted.dom().contains(handle.0.t.is_deleted.id@) && final(w).deleted[handle.0.t.is_deleted.id@], // [C12:old-handles-refuse]
+        // the handle's keyspace is the one registered under its name: afterwards the name no longer exists
+        r is Ok && is_registered(*old(w), handle.0.t.name.s@, handle.0.t.id) ==> !final(w).names.contains(handle.0.t.name.s@), // [C12:name-no-longer-exists]
+        r is Ok ==> final(w).deleted.dom().contains(handle.0.t.is_deleted.id@) && final(w).deleted[handle.0.t.is_deleted.id@], // [C12:old-handles-refuse]
+        // a STALE handle (its keyspace was deleted before; the name may have been created again since) deletes nothing:
+        // operations on one keyspace never change another, in particular not the keyspace that took over the name
+        !is_registered(*old(w), handle.0.t.name.s@, handle.0.t.id) ==> final(w).names == old(w).names && final(w).registered == old(w).registered && final(w).meta_removed == old(w).meta_removed, // [C12:delete-through-a-stale-handle-leaves-the-keyspace-that-took-over-the-name]
         r is Err ==> *final(w) == *old(w), // [C12:failed-delete-changes-nothing]
 //@end
 
